@@ -249,6 +249,29 @@ theorem datetime_iff_style :
     rw [(cell_typed_by_style_xls defs hwf xfs formats h i v d).2, hx]
     simp [logicalXls, hf]
 
+/-- **style_index_xlsx**: the style index of an xlsx cell is the whole number its `s` attribute spells (any size:
+    a table of more than 65 536 cell XFs is addressed correctly); a cell with `s="i"` whose XF `i` refers to the
+    well-formed custom format `f` is typed by `f`; an index past the table leaves the number plain -/
+theorem style_index_xlsx (defs : List (List UInt8 × Fmt)) (hwf : ∀ d ∈ defs, WF d.2)
+    (hne : ∀ d ∈ defs, render d.2 ≠ []) (xfs : List (Option (List UInt8))) (formats : List CellFormat)
+    (h : xlsxStyles (defs.map fun d => (d.1, render d.2)) xfs = .ok formats) (t : List UInt8) (i : Nat)
+    (ht : parseUsize t = some i) (v : UInt64) (d1904 : Bool) :
+    (∀ id f, xfs[i]? = some (some id) → lastDef defs id = some f →
+      TypedBy f (formatF64 v (xlsxCellFormat formats (some t)) d1904) v d1904) ∧
+    (xfs.length ≤ i → formatF64 v (xlsxCellFormat formats (some t)) d1904 = .float v) := by
+  have hc := (cell_typed_by_style_xlsx_attr defs hwf hne xfs formats h v d1904).2.1 t i ht
+  refine ⟨fun id f hx hf => ?_, fun hi => ?_⟩
+  · apply typedBy_of_eq
+    rw [hc, hx]
+    simp [logicalXlsx, hf]
+  · rw [hc, List.getElem?_eq_none hi]; rfl
+
+/-- the attribute texts the correspondence run pins: `65536` is index 65 536 (not 0), leading zeros are digits, a
+    sign, a blank, the empty text and a value of 2^64 do not parse (the reader then uses XF 0) -/
+example : parseUsize (decimal 65536) = some 65536 ∧ parseUsize [48, 48, 50] = some 2 ∧ parseUsize [43, 49] = none ∧
+    parseUsize [32, 49] = none ∧ parseUsize [] = none ∧ parseUsize (decimal 18446744073709551616) = none ∧
+    parseUsize (decimal 18446744073709551615) = some 18446744073709551615 := by decide +kernel
+
 /-- a cell whose XF uses a built-in id with no custom definition is typed by the documented table, and a style
     index past the XF list leaves the number plain (xls shown; the other two are the same lemma) -/
 theorem datetime_iff_builtin_style_xls (defs : List (Nat × Fmt)) (hwf : ∀ d ∈ defs, WF d.2) (xfs : List Nat)
